@@ -2,7 +2,7 @@
 from fv import common, design_mc, design_trace
 from fv.report import Report
 
-NA_COLS = ("x", "z", "w", "f", "g", "h", "o", "k", "y", "u1", "u2")
+NA_COLS = ("x", "z", "w", "f", "g", "h", "o", "k", "y", "u1", "u2", "b q")
 
 
 def main(tier, seed):
